@@ -66,7 +66,7 @@ package table
 //@   ensures  gIteratorNextN == old(gIteratorNextN) + 1 && gIteratorNextRecv == it.it && result == gIteratorNextR0
 //@ func (*iterator).Key
 //@   requires it != nil && it.it != nil
-//@   modifies gIteratorKeyN, gIteratorKeyRecv, gIteratorKeyR0
+//@   modifies gIteratorKeyN, gIteratorKeyRecv, gIteratorKeyR0, gIteratorKeyAt[gIteratorKeyN]
 //@   ensures  gIteratorKeyN == old(gIteratorKeyN) + 1 && gIteratorKeyRecv == it.it
 //@   ensures  len(gIteratorKeyR0) >= len(it.prefix) ==> isTail(result, gIteratorKeyR0, len(it.prefix))
 //@ func (*iterator).Value
